@@ -628,7 +628,3 @@ func (e *Engine) FieldInvariantWitness(v *types.Var) string {
 	return e.fieldInv[v].witness
 }
 
-// elemLenOfElement: length of an element of a slice of slices when every element has the same length.
-func (a *FuncAn) elemLenOfElement(v ssa.Value) (Lin, bool) {
-	return Lin{}, false
-}
